@@ -40,6 +40,20 @@ SEQ_ASSUME = [
 ]
 
 PROPS = {
+    "C01": P(["PropC01"], ["C01"],
+             "codec and connection loop: every encoded command parses back to exactly its argument bytes whatever follows (binary safety), every "
+             "strict prefix is 'incomplete', and the dispatched command sequence is independent of how the byte stream is cut into TCP segments "
+             "(all chunkings, by induction); every reply serialises to exactly one self-delimiting value; error/simple lines cannot carry CR/LF "
+             "+ correspondence: pipelines with hostile bytes sent under many segmentations (reply bytes must be identical), deserializer vs model on mutated inputs",
+             assumptions=["RespParse.v mirrors respDeserializer.go for the types + - : $ * % ~ # _ ; streamed forms and double/bignum/verbatim/blob/attribute/push requests are outside the modelled subset (only 'no panic' is checked for them)",
+                          "the kernel's TCP segmentation only delivers some chunking of the stream, which the theorem quantifies over"]),
+    "C13": P(["PropC13", "PropC06"], ["C13", "C01"],
+             "robustness: the parser model has explicit Panic outcomes at every Go indexing site and is proved never to reach one (all byte strings), a parsed "
+             "value consumes between 1 and all buffered bytes, the connection loop never panics; every command of the table that fails leaves the state "
+             "unchanged (PropC06) + correspondence: hostile commands (every command name x arities x extreme arguments x key types) and raw byte streams on a "
+             "victim connection while a bystander must be served within 1.5 s and the process must stay alive",
+             partial="stack/heap limits of the Go runtime and loops inside the ~120 handlers are not modelled as Panic/Diverge sites; the handler side is covered by the hostile-input stream only",
+             assumptions=["a malformed line wedges only the connection that sent it (the emulator treats 'malformed' as 'incomplete'); this is recorded in PropC13.v as C13_malformed_head_wedges and is outside 'well-formed command'"]),
     "C02": P(["PropC02"], ["C02"],
              "string/counter commands: theorems on the model (overflow test = mathematical overflow, MSETNX all-or-nothing, GETRANGE/SETRANGE "
              "specifications, SET option table, decimal text round trip, errors leave the db unchanged) + correspondence of every reply and of the "
